@@ -31,12 +31,15 @@ LABS = ["x", "y", "z"]
 
 
 def dissims(tier):
-    out = []
+    """Ordered so that neighbours share alpha but differ in the positional / categorical part, and vice versa:
+    the same Alignment object is evaluated with the whole list forwards and then backwards, so a value cached
+    on the alignment under a too coarse key (alpha only, delta_empty only, nothing) is observed."""
     cats = [None, {"k": "ord", "labels": ["x", "y", "z"]}, {"k": "lev", "labels": ["x", "y", "z", "xyz", "w"]}]
-    combos = [(1.0, 1.0, 1.0, 0), (0.0, 1.0, 1.0, 0), (3.0, 2.0, 0.5, 0), (1.0, 1.0, 2.0, 1), (3.0, 1.0, 1.0, 1),
-              (0.5, 1.0, 0.5, 2)]
+    combos = [(1.0, 1.0, 1.0, 0), (1.0, 1.0, 2.0, 1), (1.0, 2.0, 0.5, 0), (0.0, 1.0, 1.0, 0), (0.0, 1.0, 2.0, 2),
+              (3.0, 2.0, 0.5, 0), (3.0, 1.0, 1.0, 1), (0.5, 1.0, 0.5, 2), (0.5, 1.0, 1.0, 0)]
     if tier == "thorough":
-        combos += [(1.0, 0.5, 0.5, 1), (0.0, 1.0, 2.0, 2), (3.0, 1.0, 2.0, 2), (1.0, 1.0, 1.0, 2), (2.0, 1.0, 1.0, 0)]
+        combos += [(1.0, 0.5, 0.5, 1), (3.0, 1.0, 2.0, 2), (1.0, 1.0, 1.0, 2), (2.0, 1.0, 1.0, 0), (2.0, 1.0, 1.0, 1)]
+    out = []
     for a, b, de, ci in combos:
         r = {"k": "comb", "a": a, "b": b, "de": de}
         if cats[ci] is not None:
@@ -171,9 +174,11 @@ def run(task):
         cats = [None] + [l for l in LABS if l in labels] + ["w"]
         for src, nts, soft in aligns:
             al = lib_alignment(pa, nts, c, soft)
-            for recipe in D:
+            # forwards with every category, then backwards (gamma-cat and one category) on the SAME object
+            plan = [(r, cats) for r in D] + [(r, cats[:2]) for r in reversed(D[:-1])]
+            for recipe, cat_list in plan:
                 d = A.DISSIMS.get(recipe)
-                for category in cats:
+                for category in cat_list:
                     res["evaluations"] += 1
                     res["transitions"] += 1
                     res["traces"] += 1
